@@ -98,6 +98,8 @@ def history_case(arg):
     kind, idx, seed, work = arg
     sh = vp.Shard()
     r = vp.rng(seed, "c20", kind, idx)
+    if kind == "rich":
+        return rich_case(idx, seed, work, r)
     if kind == "c01":
         steps = widen_c01(c01.random_history(r, r.randint(6, 16)))
         mod, names = c01, c01.NAMES
@@ -126,6 +128,43 @@ def history_case(arg):
             sh.nontrivial.add((kind, idx))
         sh.count("snapshots_compared", 3 * len(runs[0]))
         sh.sample({"kind": kind + " history", "steps": len(steps), "snapshots_per_run": len(runs[0]), "observed": "3 fresh processes, byte-identical after every step"}, cap=1)
+    return sh.dict()
+
+
+def rich_case(idx, seed, work, r):
+    """typed metadata written through write_metadata, some of it refused (an integer TOML cannot hold): what the layers directory holds
+    after every call - after the refused ones too - is the same in every process"""
+    sh = vp.Shard()
+    vals = [c01.gen_rich(r) for _ in range(r.randint(3, 7))]
+    vals.insert(r.randint(1, len(vals)), dict(c01.gen_rich(r), big=2 ** 64 - 1))
+    runs = []
+    for root in ROOTS:
+        base = os.path.join(work, "h-rich-%d" % idx, root)
+        layers = os.path.join(base, "layers")
+        for d in (layers, os.path.join(base, "app"), os.path.join(base, "bp")):
+            os.makedirs(d)
+        mon = vp.Mon("layers")
+        snaps = []
+        try:
+            mon.call({"op": "init", "layers_dir": layers, "app_dir": os.path.join(base, "app"), "bp_dir": os.path.join(base, "bp")})
+            for k, v in enumerate(vals):
+                mon.call({"op": "rich", "name": "rich%d" % (k % 2), "launch": k % 2 == 0, "value": v})
+                snaps.append(vp.snapshot(layers))
+            # ... and a refused write as the last thing the process does with a layer (no later request that would tidy up after it)
+            mon.call({"op": "rich", "name": "rich-last", "launch": True, "value": dict(vals[0], big=2 ** 63), "no_follow_up": True})
+            snaps.append(vp.snapshot(layers))
+        except vp.ExecutorDied:
+            snaps.append({b"<process died>": ("?",)})
+        finally:
+            mon.close()
+        runs.append(snaps)
+    vp.rmtree(os.path.join(work, "h-rich-%d" % idx))
+    sh.evaluations += 1
+    case = {"kind": "rich", "idx": idx, "values": vals}
+    if compare(runs, "typed-metadata history #%d" % idx, case, sh) and runs[0]:
+        if wide_tables(runs[0]):
+            sh.nontrivial.add(("rich", idx))
+        sh.count("snapshots_compared", 3 * len(runs[0]))
     return sh.dict()
 
 
@@ -158,7 +197,8 @@ def phase_script(r):
     store["nested"] = dict(WIDE)
     return {"detect": {"result": "plan", "plan": plan},
             "build": {"result": "ok", "launch": {"processes": procs, "labels": labels}, "store": tomlw.tagged(store), "store_hashmap_keys": 12,
-                      "build_sboms": ["cdx", "spdx", "syft"], "launch_sboms": ["syft", "cdx"]}}
+                      # (two and three different documents of one format for one target: which of them ends up on disk is the same in every process)
+                      "build_sboms": ["cdx", "spdx", "syft", "cdx#2", "syft#2", "cdx#3"], "launch_sboms": ["syft", "cdx", "syft#2", "syft#3", "cdx#2"]}}
 
 
 def phase_case(arg):
@@ -203,7 +243,7 @@ def run(tier, seed, work):
     res = vp.Result("C20", tier, seed, "exploration")
     nh = 600 if tier == "quick" else 12000
     np_ = 600 if tier == "quick" else 12000
-    args = [("c01", i, seed, work) for i in range(nh // 2)] + [("c02", i, seed, work) for i in range(nh // 2)] + [("phase", i, seed, work) for i in range(np_)]
+    args = [("c01", i, seed, work) for i in range(nh // 2)] + [("c02", i, seed, work) for i in range(nh // 2)] + [("phase", i, seed, work) for i in range(np_)] + [("rich", i, seed, work) for i in range(nh // 10)]
     for d in vp.pimap(both, args, chunksize=4):
         res.merge(d)
     res.rule = ("evaluations = scenarios executed in three fresh processes under three different work-dir roots and compared byte for byte after every step. distinct_nontrivial = distinct scenarios "
